@@ -172,6 +172,9 @@ func runHistory(r *lib.Rand, hseed int64, module string, rep *lib.Report, items 
 		lib.Must(err)
 		vp, dp, evp := 15*time.Second, 10*time.Second, 5*time.Second
 		gp.VotingPeriod, gp.MaxDepositPeriod, gp.ExpeditedVotingPeriod, gp.Quorum = &vp, &dp, &evp, h.GovQuorum
+		if len(gp.MinDeposit) > 0 {
+			gp.ExpeditedMinDeposit = sdk.NewCoins(sdk.NewCoin(gp.MinDeposit[0].Denom, gp.MinDeposit[0].Amount.MulRaw(2)))
+		}
 		m := &govv1.MsgUpdateParams{Authority: lib.GovAuthority(), Params: gp}
 		if _, err := c.App.MsgServiceRouter().Handler(m)(c.Ctx, m); err != nil {
 			h.GovQuorum = "rejected:" + short(err.Error())
@@ -273,6 +276,24 @@ func runHistory(r *lib.Rand, hseed int64, module string, rep *lib.Report, items 
 					return err
 				})
 				o.Res = errClass(e)
+			case "set_window":
+				// governance changes the signed window while slashing cursors already exist (both directions)
+				params := x.Keeper.GetParams(c.Ctx)
+				params.SignedWindow = 2 + o.B%7
+				_, e := x.Msg().UpdateParams(c.Ctx, &crosschaintypes.MsgUpdateParams{ChainName: module, Authority: lib.GovAuthority(), Params: params})
+				o.Res = errClass(e)
+			case "gov_cancel":
+				if proposals == 0 {
+					o.Res = "none"
+					break
+				}
+				pid := uint64(1 + int(o.B)%proposals)
+				e := c.Try(func(ctx sdk.Context) error {
+					m := govv1.NewMsgCancelProposal(pid, user.Acc().String())
+					_, err := c.App.MsgServiceRouter().Handler(m)(ctx, m)
+					return err
+				})
+				o.Res = errClass(e)
 			case "top_up":
 				// a small stake increase by an ONLINE oracle: a small non-zero normalised power change
 				or := x.Oracles[o.A%len(x.Oracles)]
@@ -344,8 +365,8 @@ func runHistory(r *lib.Rand, hseed int64, module string, rep *lib.Report, items 
 }
 
 func genOp(r *lib.Rand, nOracles int) op {
-	kinds := []string{"bridge_call", "bridge_call", "inject_batch", "confirm_oset", "confirm_oset", "confirm_batch", "confirm_bcall", "confirm_bcall", "add_delegate", "gov_proposal", "top_up", "top_up", "gov_vote"}
-	return op{Kind: kinds[r.Intn(len(kinds))], A: r.Intn(nOracles + 1), B: uint64(r.Intn(8))}
+	kinds := []string{"bridge_call", "bridge_call", "inject_batch", "inject_batch", "confirm_oset", "confirm_oset", "confirm_batch", "confirm_bcall", "confirm_bcall", "add_delegate", "gov_proposal", "top_up", "top_up", "gov_vote", "gov_vote", "set_window", "gov_cancel"}
+	return op{Kind: kinds[r.Intn(len(kinds))], A: r.Intn(nOracles + 6), B: uint64(r.Intn(8))}
 }
 
 func submitProposal(c *lib.Chain, user lib.Key, variant int) error {
@@ -362,7 +383,11 @@ func submitProposal(c *lib.Chain, user lib.Key, variant int) error {
 		if variant%3 == 0 && len(dep) > 0 {
 			dep = sdk.NewCoins(sdk.NewCoin(dep[0].Denom, dep[0].Amount.QuoRaw(10)))
 		}
-		m, err := govv1.NewMsgSubmitProposal(msgs, dep, user.Acc().String(), "", "t", "s", false)
+		expedited := variant%5 == 0 && len(params.ExpeditedMinDeposit) > 0 && params.ExpeditedMinDeposit[0].Denom == dep[0].Denom
+		if expedited {
+			dep = sdk.NewCoins(params.ExpeditedMinDeposit...)
+		}
+		m, err := govv1.NewMsgSubmitProposal(msgs, dep, user.Acc().String(), "", "t", "s", expedited)
 		if err != nil {
 			return err
 		}
@@ -373,7 +398,8 @@ func submitProposal(c *lib.Chain, user lib.Key, variant int) error {
 
 func snapshot(c *lib.Chain, x *lib.XChain, extID, accID map[string]int, window uint64) pre {
 	ctx := c.Ctx
-	p := pre{Window: window, H: c.Height + 1}
+	p := pre{Window: x.Keeper.GetSignedWindow(ctx), H: c.Height + 1}
+	_ = window
 	for _, o := range x.Keeper.GetAllOracles(ctx, false) {
 		on := int64(0)
 		if o.Online {
